@@ -33,8 +33,8 @@ def pz(p):
 
 SRC = b'/src'
 NAMES_VALID = [b'x', b'y', b'x', b'z', b'x', b'y']
-NAMES_HOSTILE = [b'x', b'y', b'x', b'.', b'..', b'a/b', b'', b'z', b'../esc', b'x', b'y']
-NAMES_GLOB = [b'x', b'y', b'x', b'z', b'a/b', b'', b'foo/..', b'q/.', b'../x', b'.', b'..']
+NAMES_HOSTILE = [b'x', b'y', b'x', b'.', b'..', b'a/b', b'', b'z', b'../esc', b'x', b'y', b'../', b'y/']
+NAMES_GLOB = [b'x', b'y', b'x', b'z', b'a/b', b'', b'foo/..', b'q/.', b'../x', b'.', b'..', b'../', b'x/', b'./', b'..//']
 
 
 # --------------------------------------------------------------------------------------------------------------
@@ -806,6 +806,10 @@ FIXED = [
     dict(top=[(b'..', 'D'), (b'.', 'D')], sub={b'..': [(b'evilUp', 'F')], b'.': [(b'in', 'F')]}),
     dict(top=[(b'y', 'D')], sub={b'y': [(b'..', 'D')], b'..': [(b'evilUp2', 'F')]}, dst_state='empty', handler=True),
     dict(top=[(b'../evilS', 'F'), (b'x', 'F')], handler=True),
+    # a directory entry with a trailing slash: stripping it would turn '../' into '..'
+    dict(top=[(b'../', 'D'), (b'x', 'F')], sub={b'../': [(b'evilT', 'F')], b'..': [(b'evilT', 'F')]}, glob=True, dst_state='empty'),
+    dict(top=[(b'../', 'D'), (b'y/', 'D')], sub={b'../': [(b'evilT2', 'F')], b'..': [(b'evilT2', 'F')], b'y/': [(b'in', 'F')], b'y': [(b'in', 'F')]},
+         glob=True, dst_state='populated', handler=True),
     dict(top=[(b'OUT/evilA', 'F')]),
     dict(top=[(b'y', 'D')], sub={b'y': [(b'../../../outside/evilR', 'F'), (b'../../sibling', 'F')]}, dst_state='empty'),
     dict(top=[(b'a/b', 'D'), (b'', 'D'), (b'x', 'L'), (b'q/x', 'D')], glob=True, target={b'x': 'OUT/dir'},
